@@ -23,7 +23,8 @@ from ..core import cz, clist, cbool
 ID = "C03"
 THEOREMS = ["C03_gen_complete", "C03_gen_nodup", "C03_gen_count_once", "C03_gen_in_table",
             "C03_generated_owns_id", "C03_table_legal_exact", "C03_legal_owns_id",
-            "C03_populate_reaches_all", "C03_legal_filter_same", "C03_slides_tie"]
+            "C03_populate_reaches_all", "C03_legal_filter_same", "C03_slides_tie",
+            "C03_generator_complete_rulebook", "C03_table_filter_is_rulebook"]
 MODEL_TARGETS = ["model/Tak.vo", "model/Harness.vo", "model/Lit.vo"]
 TRUSTED_BASE = [
     "legal := exists p', move p m = Some p' (the executable rules of model/Tak.v; their equivalence with the rulebook relation is C01's theorem)",
